@@ -817,5 +817,9 @@ Example gen_check_examples :
   /\ G.check_comb_cycles py_shift (pyc conn2) [(0, [NL 3])] 20 = G.Error.
 Proof. vm_compute. repeat split. Qed.
 
-Print Assumptions gen_check_comb_cycles_eq.
-Print Assumptions gen_comb_edges_to_eq.
+Lemma py_examples_ok :
+  Forall py_ok py_mux /\ Forall py_ok py_sibling /\ Forall py_ok py_shift /\ Forall py_ok py_shift_word.
+Proof. repeat split; repeat constructor; cbn; lia. Qed.
+
+
+
